@@ -221,6 +221,9 @@ fn fuzz_corpus(a: &[String]) -> i32 {
         _ => vec![],
     };
     let _ = std::fs::create_dir_all(dir);
+    if id == "C16" {
+        let _ = std::fs::write(Path::new(dir).join("../dict.txt"), props::c16::fuzz_dictionary());
+    }
     for (i, s) in seeds.iter().enumerate() {
         let _ = std::fs::write(Path::new(dir).join(format!("seed-{i:03}")), s);
     }
@@ -327,6 +330,7 @@ fn fuzz_stage(id: &str, target: &str, seed: u64, secs: u64, jobs: usize, exe: &P
             "-ignore_ooms=0".to_string(),
             format!("-artifact_prefix={}/", arts.display()),
         ])
+        .args(if work.join("dict.txt").exists() { vec![format!("-dict={}", work.join("dict.txt").display())] } else { vec![] })
         .current_dir(&hdir)
         .env("CARGO_NET_OFFLINE", "true")
         .env("VERIF_HOME", &home)
